@@ -1,7 +1,26 @@
 (* C05 — After `db create` index and files agree; files change only to gain ZIDs.
    PARTIAL: line-level theorems about the write-back (for items whose words are
    separated by single spaces) + the world-level run of the harness. *)
-From Zorg Require Import Base.PyStr Base.Res Base.Dates Model.Zid Model.QueryListener Model.WriteBack Proofs.WriteBackFacts.
+From Zorg Require Import Base.PyStr Base.Res Base.Dates Model.Zid Model.FileListener Model.QueryListener Model.WriteBack
+  Proofs.WriteBackFacts Model.PageSyntax Model.PageText Proofs.PageFacts Proofs.ItemWriteBack.
+
+(* On abstract items (coq/Model/PageSyntax.v), any number of words: writing the ZID into the canonical text of a
+   ZID-less item yields the canonical text of the item whose identity is that ZID - after the kind / priority
+   prefix, in place of a leading long creation date, every other word untouched. With the page theorem (C01) the
+   rewritten page therefore compiles to the same notes, now carrying their ZIDs ... *)
+Theorem C05_zid_written_into_item : forall z it,
+  zidless_ok it -> prio_ok it -> forallb no_space (z :: line_words it) = true ->
+  add_zid_to_line z (render_item it) = Ok (render_item (with_zid z it)).
+Proof. exact add_zid_item. Qed.
+
+(* ... and the body _add_zids stores in the index IS the body of the note the rewritten line compiles to *)
+Theorem C05_index_body_is_file_body : forall today ot op od key line z it,
+  zidless_ok it -> z <> [] -> no_ws z = true -> no_space z = true ->
+  clean_words (map word_text (item_words it)) -> forallb no_space (map word_text (item_words it)) = true ->
+  (match i_ident it with ILong d => is_long_date_spec d = true | IPlain s => is_long_date_spec s = false | _ => True end) ->
+  patch_body z (n_body (spec_note today ot op od key line it)) =
+  n_body (spec_note today ot op od key line (with_zid z it)).
+Proof. exact index_body_is_file_body. Qed.
 
 Theorem C05_zid_after_kind : forall zid sym w r,
   sym <> [] -> forallb no_space (sym :: w :: r) = true -> is_prio_word w = false -> datelike10 w = false ->
@@ -37,6 +56,8 @@ Theorem C05_irregular_spacing_refuted :
   patch_body (S "240601#00") (S "P1   foo") = S "240601#00 P1   foo".
 Proof. exact irregular_spacing_refuted. Qed.
 
+Print Assumptions C05_zid_written_into_item.
+Print Assumptions C05_index_body_is_file_body.
 Print Assumptions C05_zid_after_kind.
 Print Assumptions C05_zid_replaces_long_date.
 Print Assumptions C05_index_body_is_file_body_partial.
